@@ -979,6 +979,8 @@ def _b_sc(rng, opt=None):
     elif kind == 'u16':
         a = np.array([rng.randint(0, 4095) for _ in range(rows * cols)], np.uint16).reshape(rows, cols)
         ba, pi = rng.choice([16, 12]), 'MONOCHROME2'
+        if opt.get('ts') == 'rle':
+            ba = 16      # RLE Lossless: bits allocated must be a multiple of 8 (12 is refused by design)
     else:
         a = np.array([rng.randint(0, 255) for _ in range(rows * cols * 3)], np.uint8).reshape(rows, cols, 3)
         ba, pi = 8, 'RGB'
